@@ -212,6 +212,7 @@ harnesses! {
         #[cfg_attr(kani, kani::stub(log_mdc::iter, crate::c12_json::stub_mdc_iter))]
         #[cfg_attr(kani, kani::stub(std::backtrace::Backtrace::capture, crate::util::stub_backtrace_capture))]
         #[cfg_attr(kani, kani::stub(<anyhow::Error as std::ops::Drop>::drop, crate::util::stub_anyhow_drop))]
+        #[cfg_attr(kani, kani::stub(<anyhow::Error as std::convert::From<std::io::Error>>::from, crate::util::stub_anyhow_from_cut))]
     }
     #[kani::unwind(12)]
     fn json_1unit() { body(1, false) }
